@@ -7,7 +7,7 @@ git -C /repo worktree remove --force $WT 2>/dev/null
 git -C /repo worktree add -q --detach $WT HEAD || exit 3
 while [ $# -ge 2 ]; do
   id=$1; v=$2; shift 2
-  src=/tmp/wt/out/$id/$v
+  src=${SEED_SRC:-/tmp/wt/out}/$id/$v
   dst=/verif/seeded/$id-$v
   [ -f $src/patch.diff ] || { echo "$id-$v: no patch"; continue; }
   git -C $WT checkout -q -- . ; git -C $WT clean -fdq
